@@ -922,6 +922,10 @@ def check_bytecode_table(prog, rep):
     if bad:
         rep.finding('R7.2', 'ByteCodeTable|Type', 'src/msgpack/msgpack_readers.cpp',
                     'ByteCodeTable assigns a wrong ValueType to first byte(s) %s' % fmt_bytes(bad), {'bytes': ['0x%02x' % b for b in bad]}, count=len(bad))
+    check_skip_extent(prog, rep, 'R7.2')
+
+
+def check_skip_extent(prog, rep, rule):
     ST = skip_tables(prog)
     for kind in sorted(ST):
         f, per = ST[kind]
@@ -931,12 +935,12 @@ def check_bytecode_table(prog, rep):
             exp = expected_skip(b)
             got = set(skip_summary(p) for p in per[b] if sufficient(p) and p.outcome[0] == 'RET')
             if exp in got and all(g == exp or (g[0] == exp[0] and g[1] == '0' and exp[1] in ('LEN', '2LEN')) for g in got):
-                rep.ok('R7.2', '%s|SkipValueImpl|%02x' % (kind, b),
+                rep.ok(rule, '%s|SkipValueImpl|%02x' % (kind, b),
                        sample={'reader': kind, 'first_byte': '0x%02x' % b, 'extent': exp[0], 'nested_values': exp[1]} if b in (0xde, 0xc7) else None)
             else:
                 badb.append((b, exp, sorted(map(str, got))))
         if badb:
-            rep.finding('R7.2', '%s|SkipValueImpl|extent' % kind, f.loc(),
+            rep.finding(rule, '%s|SkipValueImpl|extent' % kind, f.loc(),
                         '%s reader SkipValueImpl does not skip exactly one value for first byte(s) %s' % (kind, fmt_bytes([b for b, _, _ in badb])),
                         {'cases': [('0x%02x' % b, str(e), g) for b, e, g in badb[:10]]}, func=f.id, count=len(badb))
 
@@ -1023,3 +1027,23 @@ def twin_reason(x, y):
     if not x:
         return 'string lacks paths of stream'
     return 'different tables'
+
+
+def check_skip_twins(prog, rep, rule):
+    """string and stream SkipValueImpl: equal (extent, nested values) summaries for every first byte"""
+    ST = skip_tables(prog)
+    fs, ps = ST['string']
+    ft, pt = ST['stream']
+    diff = []
+    for b in range(256):
+        a = set(skip_summary(p) for p in ps[b] if sufficient(p) and p.outcome[0] == 'RET')
+        c = set(skip_summary(p) for p in pt[b] if sufficient(p) and p.outcome[0] == 'RET')
+        # the stream copy has an extra "length == 0" shortcut path whose summary is the LEN=0 instance of the general one
+        if a == c or (a <= c and all(x[1] == '0' for x in c - a)):
+            rep.ok(rule, 'SkipValueImpl|%02x' % b, nontrivial=False)
+        else:
+            diff.append((b, sorted(a), sorted(c)))
+    if diff:
+        rep.finding(rule, 'SkipValueImpl|extent', ft.loc(),
+                    'string and stream SkipValueImpl skip a different number of bytes/values for first byte(s) %s' % fmt_bytes([b for b, _, _ in diff]),
+                    {'cases': [('0x%02x' % b, str(x), str(y)) for b, x, y in diff[:8]]}, func=ft.id, count=len(diff))
